@@ -614,3 +614,40 @@ theorem as_last_wins (t : Term) (a b : Option Str) :
   cases t <;> simp [stepT, bind, Except.bind, pure, Except.pure, Term.withAlias]
 
 end Pypika.B
+
+namespace Pypika.B
+open Pypika
+
+/-! ## C14 — PostgreSQL RETURNING guard of the concrete builder -/
+
+/-- a term without column references is never rejected -/
+theorem returning_no_fields_ok (r : QR) (t : Term) (h : fieldTabs t = []) : returnRejects r t = false := by
+  simp [returnRejects, h]
+
+/-- outside INSERT / UPDATE / DELETE every term that references a column is rejected -/
+theorem returning_needs_dml (r : QR) (t : Term) (hf : fieldTabs t ≠ [])
+    (h : (r.insertTable.isSome || r.updateTable.isSome || r.fl.deleteFrom) = false) : returnRejects r t = true := by
+  unfold returnRejects
+  cases hft : fieldTabs t with
+  | nil => exact absurd hft hf
+  | cons a as => simp [List.any, h]
+
+/-- a term all of whose columns are on the statement's target (or name no table) is accepted in a DML statement -/
+theorem returning_target_ok (r : QR) (t : Term)
+    (hdml : (r.insertTable.isSome || r.updateTable.isSome || r.fl.deleteFrom) = true)
+    (hone : (r.insertTable.isNone || r.updateTable.isNone) = true)
+    (h : ∀ ref, some ref ∈ fieldTabs t → refIn (optSrcs r.insertTable ++ optSrcs r.updateTable) ref = true) :
+    returnRejects r t = false := by
+  unfold returnRejects
+  rw [List.any_eq_false]
+  intro ft hft
+  cases ft with
+  | none => simp [hdml, hone]
+  | some ref => simp [hdml, h ref hft]
+
+/-- a rejected `returning()` yields no state (the receiver's copy is discarded): nothing is half-applied -/
+theorem returning_rejects_cleanly (s : St) (t : Term) (isStar : Bool) (hs : s.returnStar = false)
+    (h : returnRejects s.r t = true) : returnField s t isStar = .error "QueryException".toList := by
+  simp [returnField, hs, h, B.raise]
+
+end Pypika.B
